@@ -106,7 +106,7 @@ def gen_extra(rng, pool):
         if name == "Select" and k >= 3:
             ws = w(3)
             return {"c": name, "p": [{"ops": [{"c": "RX", "p": [G.rval(rng)], "w": [ws[0]]}, {"c": "Z", "w": [ws[1]]}]}],
-                    "kw": {"control": [ws[2]]}, "nowires": 1}, True
+                    "kw": dict({"control": [ws[2]]}, **({"partial": True} if rng.random() < 0.5 else {})), "nowires": 1}, True
     return {"c": "U1", "p": [0.5], "w": [pool[0]]}, True
 
 
@@ -167,6 +167,9 @@ CORPUS = [
     {"c": "pow", "z": 2.5, "b": {"c": "sprod", "s": {"im": 0.5}, "b": {"c": "adjoint", "b": {"c": "Rot", "p": [0.1, 0.2, 0.3], "w": ["b"]}}}},
     {"c": "expval_eig", "mp": 1, "w": [0], "eig": [1.0, -1.0]},
     {"c": "mutual_info", "mp": 1, "w0": [0], "w1": [1, "a"], "log_base": 2},
+    # non-default hyperparameters must survive copy / rebinding
+    {"c": "Select", "p": [{"ops": [{"c": "RX", "p": [0.125], "w": [2]}, {"c": "RY", "p": [0.25], "w": [3]}, {"c": "RZ", "p": [0.375], "w": [2]}]}],
+     "kw": {"control": [0, 1], "work_wires": ["aux"], "partial": True}, "nowires": 1},
 ]
 
 DATA_SHARE = re.compile(r"\._data\[\d+\]$")
@@ -231,6 +234,8 @@ def run(ctx):
                               what=f"result of {name} is not qp.equal to the original")
             if not r["type_same"]:
                 ctx.violation(rk, {"spec": c["spec"], "route": name}, what=f"result of {name} has a different class")
+            if not r.get("hyper_same", True):
+                ctx.violation(rk, {"spec": c["spec"], "route": name}, what=f"{name} changed a non-parameter attribute (hyperparameter) of the operator")
             if ast0 is not None:
                 if r.get("ast") is None:
                     ctx.violation(rk, {"spec": c["spec"], "route": name, "why": r.get("ast_error")}, what=f"result of {name} cannot be read back")
@@ -260,9 +265,9 @@ def run(ctx):
             if "error" in b:
                 ctx.violation(bk, {"spec": c["spec"], "error": b["error"]}, what="bind_new_parameters raised for well-shaped new parameters: " + b["error"][:160])
                 continue
-            if not (b["params_exact"] and b["type_same"] and b["wires_same"] and b["orig_untouched"]):
+            if not (b["params_exact"] and b["type_same"] and b["wires_same"] and b["orig_untouched"] and b.get("hyper_same", True)):
                 ctx.violation(bk, {"spec": c["spec"], "new": b["new"], "observed": {k: v for k, v in b.items() if k not in ("ast", "new")}},
-                              what="bind_new_parameters: result's data are not exactly the new parameters, or class/wires changed, or the original was modified")
+                              what="bind_new_parameters: result's data are not exactly the new parameters, or class/wires/hyperparameters changed, or the original was modified")
             if b["ast"] is None:
                 ctx.violation(bk, {"spec": c["spec"], "why": b.get("ast_error")}, what="rebound operator cannot be read back")
             else:
